@@ -18,7 +18,9 @@ from engine.bounds import Bounds
 from engine.cfg import CFG, relations
 from engine.extract import Request
 from engine.loops import describe
-from engine.tree import key
+from engine.algebra import LocalDefs
+from engine.canon import decl_of, roles_for
+from engine.tree import key, root_of_lvalue
 
 LM = "src/listmode_buildblock/LmToProjData.cxx"
 LL = "src/recon_buildblock/PoissonLogLikelihoodWithLinearModelForMeanAndListModeDataWithProjMatrixByBin.cxx"
@@ -55,59 +57,88 @@ def register_callee_effects(ctx, fns):
 
 
 def rule_process_data(ctx, f):
+    """Roles are taken from the code, never from identifiers: allocate_segments(segments, tof_start, tof_end, seg_start, seg_end, ..)
+    names the in-memory store and the batch window; the Bin is what indexes the store; the record is what get_next_record fills;
+    the increment is the local factor of the amount stored; the budget is the variable the event loop runs on."""
     cfg = CFG(f)
-    loops = {}
-    for lp in f.walk():
-        if lp.k == "ForStmt":
-            d = describe(lp)
-            if d:
-                loops[d["var"]] = d
-    # ---- a: batching loops
-    for var, width, lo, hi, endvar in (
-        ("start_segment_index", "this.num_segments_in_memory", "get_min_segment_num()", "get_max_segment_num()", "end_segment_index"),
-        ("start_timing_pos_index", "this.num_timing_poss_in_memory", "get_min_tof_pos_num()", "get_max_tof_pos_num()", "end_timing_pos_index"),
-    ):
-        d = loops.get(var)
-        ok = d is not None and d["init"].endswith(lo) and d["upper"].endswith(hi) and d["step"] == width and "output_proj_data_sptr" in d["init"] and "output_proj_data_sptr" in d["upper"]
-        ctx.ob("C14.a-batches-partition", f.qn, "loop:" + var, ok, f.where(), "for (%s = %s; <= %s; += %s)" % (var, d["init"], d["upper"], d["step"]) if d else "batch loop over %s not found" % var)
-        ev = [m for m in f.walk() if m.k == "VarDecl" and m.get("n") == endvar and m.c]
-        ok2 = False
-        det = "no definition of " + endvar
-        if ev and d:
-            k = key(ev[0].c[0], True)
-            want = [
-                "(- std::min((+ %s 1),(+ %s %s)) 1)" % (d["upper"], var, width),
-                "(- std::min((+ %s %s),(+ %s 1)) 1)" % (var, width, d["upper"]),
-            ]
-            ok2 = k in want
-            det = "%s = %s" % (endvar, k)
-        ctx.ob("C14.a-batches-partition", f.qn, "window-end:" + endvar, ok2, f.where(), det if ok2 else "window end is not min(max+1, start+width)-1: " + det)
-    # ---- the store
-    stores = [m for m in f.walk() if m.k in ("CompoundAssignOperator", "CXXOperatorCallExpr") and m.op == "+=" and "segments[" in key(m.c[0], True)]
+    defs = LocalDefs(f)
+    al0 = [c for c in f.calls() if (c.callee or "").endswith("allocate_segments")]
+    if len(al0) != 1 or len(al0[0].call_args()) < 5 or any(decl_of(a) is None for a in al0[0].call_args()[:5]):
+        ctx.unrec(f.qn, "expected one allocate_segments(segments, tof_start, tof_end, seg_start, seg_end, ...) call on plain variables")
+        return
+    A = [decl_of(a) for a in al0[0].call_args()[:5]]
+    anchors = dict(zip(A, ["$segments", "$start_tof", "$end_tof", "$start_seg", "$end_seg"]))
+    stores = [m for m in f.walk() if m.k in ("CompoundAssignOperator", "CXXOperatorCallExpr") and m.op == "+=" and root_of_lvalue(m.c[0]) == "v%d" % A[0]]
     if len(stores) != 1:
         ctx.unrec(f.qn, "expected exactly one `segments[..][..][..][..][..] +=` store, found %d" % len(stores))
         return
     st = stores[0]
-    facts = cfg.facts_at(st)
-    B = Bounds(relations(facts))
-    binv = None
+    bind = None
     for m in st.walk():
         if m.k == "CXXMemberCallExpr" and (m.callee or "").endswith("::segment_num") and m.c and m.c[0].k == "DeclRefExpr":
-            binv = key(m.c[0])
-    if binv is None:
+            bind = m.c[0].get("d")
+    if bind is None:
         ctx.unrec(f.qn, "store does not index by a Bin")
         return
+    anchors[bind] = "$bin"
+    binv = "v%d" % bind
+    # the increment: the local factor of the amount stored; the budget: the variable of the enclosing event loop
+    incd = None
+    for x in st.c[1].walk():
+        if x.k == "DeclRefExpr" and x.get("dk") == "local" and x.get("d") != bind:
+            incd = x.get("d")
+    evwhile = [a for a in st.ancestors() if a.k == "WhileStmt"]
+    budd = decl_of(evwhile[0].c[0]) if evwhile else None
+    recs = [c for c in f.calls() if (c.callee or "").endswith("::get_next_record") and evwhile and any(a is evwhile[0] for a in c.ancestors())]
+    recd = decl_of(recs[0].call_args()[0]) if recs else None
+    if incd is not None:
+        anchors[incd] = "$inc"
+    if budd is not None:
+        anchors[budd] = "$budget"
+    if recd is not None:
+        anchors[recd] = "$rec"
+    roles = roles_for(f, anchors, defs)
+    sub = {d: (None if d in anchors else defs.single_def(d)) for d in defs.decl}
+    K = lambda x: key(x, roles, sub)
+    loops = {}
+    for lp in f.walk():
+        if lp.k == "ForStmt":
+            d = describe(lp, names=roles)
+            if d:
+                loops[d["d"]] = d
+    # ---- a: batching loops
+    for what, vd_, ed_, width, lo, hi in (
+        ("segment", A[3], A[4], "this.num_segments_in_memory", "get_min_segment_num()", "get_max_segment_num()"),
+        ("TOF", A[1], A[2], "this.num_timing_poss_in_memory", "get_min_tof_pos_num()", "get_max_tof_pos_num()"),
+    ):
+        d = loops.get(vd_)
+        var = roles[vd_]
+        ok = d is not None and d["init"] == "*this.output_proj_data_sptr." + lo and d["upper"] == "*this.output_proj_data_sptr." + hi and d["step"] == width
+        ctx.ob("C14.a-batches-partition", f.qn, "loop:%s-batches" % what, ok, f.where(), "for (%s = %s; <= %s; += %s)" % (var, d["init"], d["upper"], d["step"]) if d else "batch loop over the %s window start not found" % what)
+        ev = defs.decl.get(ed_)
+        ok2 = False
+        det = "no definition of the window end"
+        if ev is not None and ev.c and d and not defs.writes.get("v%d" % ed_):
+            k = K(ev.c[0])
+            want = [
+                "(- std::min((+ %s 1),(+ %s %s)) 1)" % (d["upper"], var, width),
+                "(- std::min((+ %s %s),(+ %s 1)) 1)" % (var, width, d["upper"]),
+                "(- std::min((+ %s 1),(+ %s %s)) 1)" % (d["upper"], width, var),
+                "(- std::min((+ %s %s),(+ %s 1)) 1)" % (width, var, d["upper"]),
+            ]
+            ok2 = k in want
+            det = "window end = %s" % k
+        ctx.ob("C14.a-batches-partition", f.qn, "window-end:%s" % what, ok2, f.where(), det if ok2 else "window end is not min(max+1, start+width)-1: " + det)
+    facts = cfg.facts_at(st)
+    B = Bounds(relations(facts))
     seg, tof = "%s.segment_num()" % binv, "%s.timing_pos_num()" % binv
 
-    def localkey(name):
-        for m in f.walk():
-            if m.k == "VarDecl" and m.get("n") == name:
-                return "v%d" % m.get("d")
-        return "?"
+    def localkey(dd):
+        return "v%d" % dd
 
-    for coord, lo, hi in ((seg, "start_segment_index", "end_segment_index"), (tof, "start_timing_pos_index", "end_timing_pos_index")):
+    for coord, lo, hi in ((seg, A[3], A[4]), (tof, A[1], A[2])):
         ok = B.ge(coord, localkey(lo)) and B.ge(localkey(hi), coord)
-        ctx.ob("C14.a-batches-partition", f.qn, "store-only-in-batch:" + coord.split(".")[-1], ok, st.where(), "store guarded by %s <= %s <= %s" % (lo, coord.split(".")[-1], hi) if ok else "an event can be stored although %s is outside the batch in memory" % coord.split(".")[-1])
+        ctx.ob("C14.a-batches-partition", f.qn, "store-only-in-batch:" + coord.split(".")[-1], ok, st.where(), "store guarded by window start <= %s <= window end" % coord.split(".")[-1] if ok else "an event can be stored although %s is outside the batch in memory" % coord.split(".")[-1])
     # ---- c: range tests dominate the store
     for acc, mn, mx, per_seg in (
         ("tangential_pos_num", "get_min_tangential_pos_num", "get_max_tangential_pos_num", False),
@@ -127,32 +158,32 @@ def rule_process_data(ctx, f):
             c0 = m.c[0].strip()
             while c0.k == "BinaryOperator" and c0.op == "&&":
                 c0 = c0.c[0].strip()
-            if "get_bin_value()" in key(c0, True) and c0.op == ">" and "segment_num" not in key(c0, True):
+            if c0.k == "BinaryOperator" and c0.op == ">" and key(c0.c[0].strip()) == binv + ".get_bin_value()" and key(c0.c[1].strip()) in ("0", "0.0"):
                 first = True
                 break
     pos = True  # positivity is required at the acceptance test (checked structurally as `first`), the normalisation may change the value afterwards
     ctx.ob("C14.c-store-bounded", f.qn, "bin-value-positive-first", pos and first, st.where(), "bin_value > 0 is the first test of the acceptance chain (an event outside the template never reaches the per-segment accessors)" if pos and first else "acceptance does not start with bin_value > 0 (positive=%s, first=%s)" % (pos, first))
     # ---- d: increment
-    incs = [m for m in f.walk() if m.k == "VarDecl" and m.get("n") == "event_increment" and m.c]
     ok = False
-    det = "no event_increment"
-    if incs:
-        k = key(incs[0].c[0].strip(), True)
-        ok = re.fullmatch(r"\(\?: \*?record\.event\(\)\.is_prompt\(\) \(\?: this\.store_prompts 1 0\) this\.delayed_increment\)", k) is not None
+    det = "the amount stored has no local increment factor"
+    if incd is not None and defs.decl.get(incd) is not None and defs.decl[incd].c and not defs.writes.get("v%d" % incd):
+        k = K(defs.decl[incd].c[0].strip())
+        ok = re.fullmatch(r"\(\?: \*?\$rec\.event\(\)\.is_prompt\(\) \(\?: this\.store_prompts 1 0\) this\.delayed_increment\)", k) is not None
         det = "event_increment = " + k
     ctx.ob("C14.d-increment", f.qn, "event_increment", ok, f.where(), det)
-    sk = key(st.c[1].strip(), True)
-    ok = sk in ("(* %s.get_bin_value() event_increment)" % "bin", "(* event_increment bin.get_bin_value())")
+    sk = K(st.c[1].strip())
+    ok = sk in ("(* $bin.get_bin_value() $inc)", "(* $inc $bin.get_bin_value())")
     ctx.ob("C14.d-increment", f.qn, "amount-added", ok, st.where(), "segments[...] += " + sk)
-    dec = [m for m in f.walk() if m.k in ("CompoundAssignOperator",) and m.op == "-=" and key(m.c[0], True) == "more_events"]
-    ok = len(dec) == 1 and key(dec[0].c[1].strip(), True) == "event_increment"
+    dec = [m for m in f.walk() if m.k in ("CompoundAssignOperator",) and m.op == "-=" and budd is not None and key(m.c[0].strip()) == "v%d" % budd]
+    ok = len(dec) == 1 and K(dec[0].c[1].strip()) == "$inc"
     ctx.ob("C14.d-increment", f.qn, "budget-decrement", ok, f.where(), "more_events -= event_increment" if ok else "event budget not decreased by the increment that is stored")
     # the budget counts every accepted event, whether or not its segment / TOF bin is in the batch currently in memory:
     # otherwise each pass stops at a different point of the stream and the result depends on the batch sizes
     if len(dec) == 1:
         fd = cfg.facts_at(dec[0])
         Bd = Bounds(relations(fd))
-        in_batch = [c for c in (seg, tof) if any(a == c and op in (">=", "<=", ">", "<") and b in (localkey("start_segment_index"), localkey("end_segment_index"), localkey("start_timing_pos_index"), localkey("end_timing_pos_index")) for a, op, b in Bd.rels)]
+        win = {localkey(x) for x in A[1:5]}
+        in_batch = [c for c in (seg, tof) if any(a == c and op in (">=", "<=", ">", "<") and b in win for a, op, b in Bd.rels)]
         ctx.ob("C14.d-increment", f.qn, "budget-independent-of-batch", not in_batch, dec[0].where(), "the event budget is decreased for every accepted event, independent of the batch in memory" if not in_batch else "the event budget is only decreased when %s lies in the batch in memory: passes stop at different events" % [c.split(".")[-1] for c in in_batch])
     # ---- b: rewind
     rew = [c for c in f.calls() if (c.callee or "").endswith("::set_get_position")]
@@ -165,16 +196,16 @@ def rule_process_data(ctx, f):
         fs = cfg.facts_at(sav[0])
         # the rewind happens exactly when this is not the first batch of the frame: its guard is (seg != min || tof > min)
         g = [a for a in rew[0].ancestors() if a.k == "IfStmt"]
-        gk = key(g[0].c[0], True) if g else "?"
-        first_pass_neg = re.fullmatch(r"\(\|\| \(!= start_segment_index \*this\.output_proj_data_sptr\.get_min_segment_num\(\)\) \(> start_timing_pos_index \*this\.output_proj_data_sptr\.get_min_tof_pos_num\(\)\)\)", gk) is not None or re.fullmatch(r"\(\|\| \(> start_timing_pos_index .*get_min_tof_pos_num\(\)\) \(!= start_segment_index .*get_min_segment_num\(\)\)\)", gk) is not None
+        gk = K(g[0].c[0]) if g else "?"
+        first_pass_neg = re.fullmatch(r"\(\|\| \((!=|>) \$start_seg \*this\.output_proj_data_sptr\.get_min_segment_num\(\)\) \((!=|>) \$start_tof \*this\.output_proj_data_sptr\.get_min_tof_pos_num\(\)\)\)", gk) is not None or re.fullmatch(r"\(\|\| \((!=|>) \$start_tof \*this\.output_proj_data_sptr\.get_min_tof_pos_num\(\)\) \((!=|>) \$start_seg \*this\.output_proj_data_sptr\.get_min_segment_num\(\)\)\)", gk) is not None
         same_if = g and any(x is sav[0] for x in g[0].walk()) and len(g[0].c) == 3 and any(x is sav[0] for x in g[0].c[2].walk())
-        arg = key(rew[0].call_args()[0], True)
-        clock = [m for m in (g[0].c[1].walk() if g else []) if m.k == "BinaryOperator" and m.op == "=" and key(m.c[0], True) == "this.current_time" and key(m.c[1].strip(), True) == "start_time"]
+        arg = K(rew[0].call_args()[0])
+        clock = [m for m in (g[0].c[1].walk() if g else []) if m.k == "BinaryOperator" and m.op == "=" and key(m.c[0]) == "this.current_time" and K(m.c[1].strip()) == "this.frame_defs.get_start_time(this.current_frame_num)"]
         savekey = [m for m in f.walk() if m.k in ("BinaryOperator", "CXXOperatorCallExpr") and m.op == "=" and any(x is sav[0] for x in m.walk())]
-        saved_to = key(savekey[0].c[0], True) if savekey else "?"
-        ok = first_pass_neg and same_if and arg == "frame_start_positions[this.current_frame_num]" and saved_to == arg and bool(clock)
+        saved_to = K(savekey[0].c[0]) if savekey else "?"
+        ok = first_pass_neg and same_if and arg.endswith("[this.current_frame_num]") and saved_to == arg and bool(clock)
         # the event loop comes after both
-        ok = ok and all(cfg.must_pass_from_entry([e], lambda x: x.i in (rew[0].i, sav[0].i)) is None for e in evloop if any(a.k == "WhileStmt" and "more_events" in key(a.c[0], True) for a in e.ancestors()))
+        ok = ok and all(cfg.must_pass_from_entry([e], lambda x: x.i in (rew[0].i, sav[0].i)) is None for e in evloop if any(evwhile and a is evwhile[0] for a in e.ancestors()))
         det = "later batches: set_get_position(%s) and current_time = start_time; first batch saves to %s" % (arg, saved_to)
     ctx.ob("C14.b-same-events-every-pass", f.qn, "rewind", ok, f.where(), det if ok else "passes over one frame do not all start from the saved frame start: " + det)
     # ---- e: allocate / save pairing
@@ -183,7 +214,7 @@ def rule_process_data(ctx, f):
     ok = len(al) == 1 and len(sv) == 1
     det = "expected one allocate_segments and one save_and_delete_segments"
     if ok:
-        ka, ks = [key(a, True) for a in al[0].call_args()[1:5]], [key(a, True) for a in sv[0].call_args()[2:6]]
+        ka, ks = [K(a) for a in al[0].call_args()[1:5]], [K(a) for a in sv[0].call_args()[2:6]]
         ga = [k for k, tv, _r in cfg.facts_at(al[0]) if k == "this.interactive"]
         gs = [k for k, tv, _r in cfg.facts_at(sv[0]) if k == "this.interactive"]
         # the save sits under `if (!interactive)`, the same (unchanged) condition the allocation is under: reaching that test
@@ -200,15 +231,28 @@ def rule_process_data(ctx, f):
 
 
 def rule_g(ctx, f):
-    # if (basic_bin.view_num() % num_subsets != subset_num) continue;   (or the positive form)
+    # if (subset_num != basic_bin.view_num() % num_subsets) continue;   (or the positive form); subset_num / num_subsets are the two
+    # int parameters that follow each other in this order (the interface shared with the sinogram-based computation)
+    ints = [p for p in f.params if p["t"].replace("const ", "").strip() == "int"]
+    pos = {p["d"]: i for i, p in enumerate(f.params)}
     tests = [m for m in f.walk() if m.k == "BinaryOperator" and m.op in ("!=", "==") and any(c.strip().k == "BinaryOperator" and c.strip().op == "%" for c in m.c)]
     ok = False
     det = "no residue-class test of the basic view"
     for t in tests:
-        k = key(t, True)
-        if re.fullmatch(r"\((!=|==) \(% \w+\.view_num\(\) num_subsets\) subset_num\)", k) or re.fullmatch(r"\((!=|==) subset_num \(% \w+\.view_num\(\) num_subsets\)\)", k):
-            ok = True
-            det = k
+        a, b = t.c[0].strip(), t.c[1].strip()
+        if a.k == "BinaryOperator" and a.op == "%":
+            a, b = b, a
+        sd = decl_of(a)
+        if sd is None or b.k != "BinaryOperator" or b.op != "%":
+            continue
+        nd = decl_of(b.c[1])
+        vk = key(b.c[0].strip())
+        if sd in pos and nd in pos and pos[nd] == pos[sd] + 1 and sd in {p["d"] for p in ints} and nd in {p["d"] for p in ints} and re.fullmatch(r"v\d+\.view_num\(\)", vk):
+            # the bin tested is the basic bin of the event's bin (find_basic_bin applied to it unless already basic)
+            bd = int(vk[1:].split(".")[0])
+            fb = [c for c in f.calls() if (c.callee or "").endswith("::find_basic_bin") and decl_of(c.call_args()[0]) == bd]
+            ok = bool(fb)
+            det = key(t, True) if ok else "the view tested is not that of the basic bin (no find_basic_bin on it)"
     ctx.ob("C14.g-listmode-subsets", f.qn, "residue-class-of-view", ok, f.where(), "events are selected by " + det if ok else det)
 
 
